@@ -43,7 +43,7 @@ class HeaderBase:
         calls = [e[1] for e in dev.f[0].events if e[0] == 'call']
         errs = [e[1] for e in dev.f[0].events if e[0] == 'err']
         if len(dev.f) > 1:
-            errs = errs + list(dev.f[1].f[0].items)
+            errs = errs + list(w.queue_items(dev))
         ref = oracle.ref_header(s.tree, ex.truth, list(h))
         if s.twin and ref[0] == 'handler':
             ref = ('undefined',)
